@@ -110,6 +110,30 @@ def check_tlv(cls, cons, num, n):
         rec("oracle", "TLV round trip raised", {"cls": cls, "cons": cons, "num": num, "len": n}, f"{type(e).__name__}: {e}")
 
 
+def check_length_forms(n, trailing):
+    """Every definite length form (short, long with 1..5 length octets incl. leading zeros) is read as the same length."""
+    global n_eval
+    payload = bytes(i % 251 for i in range(n))
+    forms = []
+    if n < 128:
+        forms.append(bytes([n]))
+    for k in range(1, 6):
+        if n < 256 ** k:
+            forms.append(bytes([0x80 | k]) + n.to_bytes(k, "big"))
+    for f in forms:
+        n_eval += 1
+        enc = b"\x04" + f + payload + trailing
+        try:
+            hdr = a._read_asn1_header(enc)
+            if hdr.length != n or hdr.tag_length != 1 + len(f):
+                rec("oracle", "every definite length form denotes the same length", {"form": f.hex(), "len": n}, repr(hdr))
+            r = ASN1Reader(enc)
+            if r.read_octet_string() != payload or r.get_remaining_data() != trailing:
+                rec("oracle", "value read back under a non-minimal length form", {"form": f.hex(), "len": n})
+        except Exception as e:
+            rec("oracle", "reader rejects a valid definite length form", {"form": f.hex(), "len": n, "trailing": trailing.hex()}, f"{type(e).__name__}: {e}")
+
+
 def main():
     tier = os.environ.get("VERIF_TIER", "quick")
     t0 = time.time()
@@ -142,6 +166,9 @@ def main():
                     continue
                 for n in (lens if num in (0, 4, 30, 31, 127, 128, 16384) else (0, 127, 128)):
                     check_tlv(cls, cons, num, n)
+    for n in (0, 1, 2, 127, 128, 255, 256, 1000):
+        for trailing in (b"", b"\x00", b"\x30\x00"):
+            check_length_forms(n, trailing)
     # booleans, nesting
     for val in (True, False):
         w = ASN1Writer()
